@@ -35,14 +35,14 @@ Definition loc_leb (a b : N * Z) : bool :=
    stopped at, or the lexer's position inside the malformed lexeme.
      0  the implementation reports the model's position;
      1  it reports another position inside the same token / lexeme, or the model accepts the
-        source, or the position is outside and the theorems do not decide (behind a malformed
-        lexeme; in front of the token when no witness is found);
-     2  it reports a position behind the token the model reports -- no valid document continues
-        the text up to and including that token (C18_syntax_error_no_extension), so the text
-        stopped being a beginning of a valid document earlier than the reported location --
-        or a position in front of the token / malformed lexeme although the tokens before it are
-        the beginning of a valid document (witness found by [viable_witness],
-        C18_syntax_error_first_nonviable_partial), so it is not inside the first offending one. *)
+        source, or a position behind a malformed lexeme (byte-level locality of lexical errors
+        is not proved);
+     2  it reports a position behind the token the model reports -- no derivable document
+        continues the tokens up to and including that token, so the text stopped being the
+        beginning of a valid document earlier than the reported location -- or a position in
+        front of the token / malformed lexeme -- the tokens in front of it are the beginning of a
+        derivable document, so the location is not inside the first offending one
+        (C18_syntax_error_first_nonviable, both halves, all inputs). *)
 Definition check_syn (s : bytes) (l : N) (col : Z) : N :=
   match parse_report s with
   | None => 1
@@ -51,7 +51,7 @@ Definition check_syn (s : bytes) (l : N) (col : Z) : N :=
     if (l =? fst m) && (col =? snd m)%Z then 0
     else if loc_leb (spec_location s (r_lo r)) (l, col) && loc_leb (l, col) (spec_location s (r_hi r)) then 1
     else if loc_leb (spec_location s (r_hi r)) (l, col) then (if r_lexical r then 1 else 2)
-    else match viable_witness (r_before r) with Some _ => 2 | None => 1 end
+    else 2
   end.
 
 Definition check (c : c18case) : N :=
